@@ -48,6 +48,7 @@ type Exec struct {
 	paramOrd []string
 	inlineDepth int
 	clockStable bool
+	inGlobalInv bool
 	onlySafety  bool
 }
 
@@ -476,6 +477,10 @@ func (x *Exec) havocLoop(p *Path, fr *FrameState, l *Loop) {
 			break
 		}
 		v := x.e.freshVal(p, phi.Type(), phi.Name()+"_"+phi.Comment)
+		if phi.Comment == "rangeindex" && v.K == KScalar {
+			// range loops over slices count up from -1
+			p.assume("(>= " + v.S + " (- 1))")
+		}
 		fr.env[phi] = v
 		if phi.Comment != "" {
 			fr.names[phi.Comment] = v
@@ -617,7 +622,15 @@ func (x *Exec) havocLoop(p *Path, fr *FrameState, l *Loop) {
 						}
 						if cc.IsInvoke() {
 							if ic := x.ifaceContract(cc); ic != nil && !hasEverything(ic) {
-								for _, k := range x.modKeysOfContract(ic) {
+								for _, k := range x.modKeysOfContract(ic, cc) {
+									addKey(k, "")
+								}
+								continue
+							}
+						}
+						if !cc.IsInvoke() {
+							if ft := x.functypeContract(cc); ft != nil && !hasEverything(ft) {
+								for _, k := range x.modKeysOfContract(ft, cc) {
 									addKey(k, "")
 								}
 								continue
@@ -641,7 +654,7 @@ func (x *Exec) havocLoop(p *Path, fr *FrameState, l *Loop) {
 							all = true
 							continue
 						}
-						for _, k := range x.modKeysOfContract(fc) {
+						for _, k := range x.modKeysOfContract(fc, cc) {
 							addKey(k, "")
 						}
 						continue
@@ -718,14 +731,27 @@ func hasEverything(fc *FuncContract) bool {
 }
 
 // modKeysOfContract: heap keys (whole) a contract's modifies clause may touch, conservatively.
-func (x *Exec) modKeysOfContract(fc *FuncContract) []string {
+func (x *Exec) modKeysOfContract(fc *FuncContract, cc *ssa.CallCommon) []string {
 	var out []string
 	// resolve statically: need the types of the parameters
 	fn := x.e.funcs[fc.Pkg+"."+fc.Name]
 	ptypes := map[string]types.Type{}
-	if fn != nil {
+	if fn != nil && fc.Kind == "func" {
 		for _, prm := range fn.Params {
 			ptypes[prm.Name()] = prm.Type()
+		}
+	} else if cc != nil {
+		var ats []types.Type
+		if cc.IsInvoke() {
+			ats = append(ats, cc.Value.Type())
+		}
+		for _, a := range cc.Args {
+			ats = append(ats, a.Type())
+		}
+		for i, n := range fc.ParamNames {
+			if i < len(ats) {
+				ptypes[n] = ats[i]
+			}
 		}
 	}
 	add := func(k string, srt string) {
@@ -1048,6 +1074,9 @@ func (x *Exec) load(p *Path, snap *Snap, a *Addr) Val {
 		}
 		v := x.e.unflatten(a.ET, &ts)
 		v.Label = a.Label
+		if snap == nil {
+			x.globalInv(p, strings.TrimPrefix(a.Cell, "G:"), false)
+		}
 		if x.e.globalsRO[strings.TrimPrefix(a.Cell, "G:")] && v.K == KIface {
 			// read-only error values (errors.New at init) are non-nil
 			if types.TypeString(a.ET, nil) == "error" {
@@ -1077,6 +1106,31 @@ func (x *Exec) storeTo(p *Path, a *Addr, v Val) {
 		ts := x.e.flatten(v)
 		for i, l := range x.e.leaves(a.ET) {
 			x.e.heapSet(p, a.Cell+l.Path, l.Sort, ts[i])
+		}
+		x.globalInv(p, strings.TrimPrefix(a.Cell, "G:"), true)
+	}
+}
+
+// globalInv assumes (on load) or checks (after a store) the declared invariants of a package-level variable.
+func (x *Exec) globalInv(p *Path, name string, check bool) {
+	cls := x.e.cs.GlobalInv[name]
+	if len(cls) == 0 || x.inGlobalInv {
+		return
+	}
+	x.inGlobalInv = true
+	defer func() { x.inGlobalInv = false }()
+	i := strings.LastIndex(name, ".")
+	ctx := &EvalCtx{x: x, p: p, pkg: name[:i]}
+	for _, c := range cls {
+		s, err := ctx.EvalBool(c.E)
+		if err != nil {
+			x.errorf("%s:%d: globalinv: %v", c.File, c.Line, err)
+			continue
+		}
+		if check {
+			x.oblige(p, "globalinv", c.Label, s, c.Props, c.Src)
+		} else {
+			x.assumeOnce(p, s)
 		}
 	}
 }
